@@ -40,9 +40,12 @@ struct Mon {
     }
 };
 
+// bounded-exhaustive tier (c15_alert_sweep): every alert description byte x role x version x early handshake point
+struct Forced { bool on = false; bool vclient; int ver; unsigned k; uint8_t adesc; };
+static Forced g_forced;
 static void prop(Tape &t, Ctx &c) {
     bool vclient = t.coin();
-    int ver = (int) t.below(NVER);
+    int ver = (int) t.below(NVER); if (g_forced.on) ver = g_forced.ver;
     auto cand = suites_for(ver); const Suite su = cand[t.below(cand.size())];
     bool cauth = su.auth != AUTH_PSK && t.chance(1, 4);
     unsigned k = (unsigned) t.below(12);
@@ -52,11 +55,15 @@ static void prop(Tape &t, Ctx &c) {
     if (dt && (ev == E_PEER_ENC_FATAL || ev == E_CORRUPT_PROTECTED || ev == E_OVERSIZE || ev == E_UNKNOWN_TYPE || ev == E_GARBAGE)) ev = t.coin() ? E_PLAIN_FATAL_ALERT : E_PEER_CLOSE; // DTLS silently drops bad records
     if (ev == E_PEER_CLOSE || ev == E_PEER_ENC_FATAL) established = true;
     if (dt && ev == E_PLAIN_FATAL_ALERT) established = false;
-    uint8_t adesc = t.pick(std::vector<uint8_t>{ 10, 20, 22, 40, 42, 45, 47, 48, 50, 51, 70, 80, 86, 112 });
+    // every description byte: a fatal-level alert ends the session whatever it describes (defined codes are picked more often)
+    uint8_t adesc = t.pick(std::vector<uint8_t>{ 0, 10, 20, 21, 22, 30, 40, 41, 42, 43, 44, 45, 46, 47, 48, 49, 50, 51, 60, 70, 71, 80, 86, 90, 100, 109, 110, 111, 112, 113, 114, 115, 116, 120, 255 });
+    if (t.chance(1, 3)) adesc = (uint8_t) t.below(256);
     int nsteps = 1 + (int) t.below(8);
     std::vector<int> steps; for (int i = 0; i < nsteps; i++) steps.push_back((int) t.below(S_N));
     uint64_t r1 = t.u32(), r2 = t.u32();
     size_t chunk = t.chance(1, 3) ? 1 + t.below(7) : (size_t) -1;
+    if (g_forced.on) { vclient = g_forced.vclient; k = g_forced.k; adesc = g_forced.adesc; ev = E_PLAIN_FATAL_ALERT; established = false; cauth = false; chunk = (size_t) -1;
+        steps = { S_NEXT_LEGIT, S_NEXT_LEGIT, S_ENCODE0, S_NEXT_LEGIT, S_NEXT_LEGIT, S_ENCODE1 }; }
     std::string sd; for (int s : steps) { sd += st_name[s]; sd += ","; }
     std::string desc = fmt("victim=%s %s %s%s %s ev=%s(%u) steps=[%s] chunk=%zd (tls1.3 cases may be early-data capable)", vclient ? "client" : "server", ver_name(ver), su.name, cauth ? "+cauth" : "",
                            established ? "established" : fmt("k=%u", k).c_str(), ev_name[ev], adesc, sd.c_str(), (ssize_t) chunk);
@@ -185,5 +192,17 @@ static void prop(Tape &t, Ctx &c) {
     }
     if (had_valid_continuation) c.nontrivial(fmt("%d|%d|%s|%d|%s", vclient, ver, established ? "est" : fmt("k%u", std::min(k, unit_no)).c_str(), ev, mon.why.substr(0, 8).c_str()));
 }
+#ifdef C15_ALERT_SWEEP
+static const unsigned SWEEP_K = 4;
+static void sweep(Tape &t, Ctx &c) {
+    uint64_t idx = t.u64();
+    if (idx >= (uint64_t) 256 * 2 * SWEEP_K * NVER) throw Discard{};
+    g_forced.on = true; g_forced.adesc = (uint8_t) (idx % 256); idx /= 256; g_forced.vclient = idx % 2; idx /= 2; g_forced.k = (unsigned) (idx % SWEEP_K); idx /= SWEEP_K; g_forced.ver = (int) idx;
+    prop(t, c);
+}
+namespace vf { uint64_t vf_enum_total() { return (uint64_t) 256 * 2 * SWEEP_K * NVER; } }
+VF_TARGET("C15.alert_sweep", sweep, 16, 60)
+#else
 VF_TARGET("C15.stays_dead", prop, 256, 60)
+#endif
 namespace vf { void vf_global_init(int, char **) { mxh::global_open(); } }
